@@ -67,6 +67,46 @@ def setter_of(cls: ast.ClassDef, attr: str) -> typing.Optional[ast.FunctionDef]:
     return None
 
 
+def native_setter_witness(src: str, meta: dict):
+    """bounded native run of the extracted setter (it needs nothing but `self`): boundary values against the same contract"""
+    ns: dict = {"_np_": type("NP", (), {"uint8": int, "uint16": int, "uint32": int, "uint64": int, "int8": int, "int16": int, "int32": int, "int64": int, "isfinite": staticmethod(lambda v: v == v and abs(v) != float("inf"))})}
+    try:
+        exec(compile(src, "<generated setter>", "exec"), ns)
+    except Exception as ex:
+        return {"harness_error": f"{type(ex).__name__}: {ex}"}
+    G = ns["G"]
+    lo, hi = meta["lo"], meta["hi"]
+    vals = sorted({lo - 1, lo, lo + 1, hi - 1, hi, hi + 1, 0, 1, -1, 2 * hi + 1, hi + 256, lo - 256}) if meta["kind"] == "int" else [True, False]
+    n = 0
+    for v in vals:
+        for prev in ("self", "other"):
+            n += 1
+            o = G()
+            for f in meta["all"]:
+                setattr(o, f, None if meta["union"] else 7)
+            if meta["union"]:
+                setattr(o, meta["field"] if prev == "self" else (meta["others"][0] if meta["others"] else meta["field"]), 3)
+            before = {f: getattr(o, f) for f in meta["all"]}
+            try:
+                o.setter(v)
+                raised = None
+            except ValueError:
+                raised = "ValueError"
+            except Exception as ex:
+                raised = type(ex).__name__
+            ok_range = lo <= v <= hi if meta["kind"] == "int" else True
+            after = {f: getattr(o, f) for f in meta["all"]}
+            if ok_range and raised:
+                return {"input": {"value": v, "field": meta["field"]}, "why": f"in-range value rejected with {raised}", "evaluations": n}
+            if not ok_range and raised != "ValueError":
+                return {"input": {"value": v, "field": meta["field"], "object_before": before}, "why": f"out-of-range value [{lo}, {hi}] " + (f"raises {raised}" if raised else f"is stored as {after[meta['field']]!r}"), "evaluations": n}
+            if raised and after != before:
+                return {"input": {"value": v, "field": meta["field"], "object_before": before}, "why": f"the rejected assignment changed the object: {after}", "evaluations": n}
+            if not raised and (after[meta["field"]] != v or any(after[g] is not None for g in meta["others"])):
+                return {"input": {"value": v, "field": meta["field"], "object_before": before}, "why": f"after the assignment the object is {after}", "evaluations": n}
+    return None
+
+
 def main():
     args = parse_args(PROP)
     run = report.Run(PROP, "proof", "./check C18", args.tier)
@@ -119,7 +159,10 @@ def main():
                     ens = []
                     if kind == "int":
                         lo, hi = int(dt.inclusive_value_range.min), int(dt.inclusive_value_range.max)
-                        rs = [Raises("ValueError", f"not ({lo} <= {argname} and {argname} <= {hi})")]
+                        unchanged = " and ".join(f"self._{pyid(g.name)} == old(self._{pyid(g.name)})" for g in fields if isinstance(g.data_type, (pydsdl.IntegerType, pydsdl.BooleanType))) or "True"
+                        cleared_ok = " and ".join(f"(self._{pyid(g.name)} is None) == (old(self._{pyid(g.name)}) is None)" for g in fields) if is_union else "True"
+                        rs = [Raises("ValueError", f"not ({lo} <= {argname} and {argname} <= {hi})",
+                                     ensures=[("a-rejected-assignment-leaves-the-object-as-it-was", f"{unchanged} and {cleared_ok}")])]
                         ens.append(("in-range-value-is-stored", f"self._{pyid(f.name)} == {argname}"))
                     else:
                         rs = []
@@ -131,6 +174,8 @@ def main():
                     label = f"{tn}.{f.name}"
                     c = Contract(target=f"<generated {path.relative_to(out).as_posix()} {'.'.join(cpath)}.{f.name}>:G.setter", params={"self": SObj("G", dict(spec_fields)), argname: SInt if kind == "int" else SBool},
                                  raises=rs, ensures=ens, modifies=[f"self._{pyid(g.name)}" for g in (fields if is_union else [f])], label=label, decls=["(declare-sort Opaque 0)"])
+                    c.meta = {"kind": kind, "field": "_" + pyid(f.name), "arg": argname, "lo": lo if kind == "int" else 0, "hi": hi if kind == "int" else 1,
+                              "others": ["_" + pyid(g.name) for g in others] if is_union else [], "all": ["_" + pyid(g.name) for g in fields], "union": is_union}
                     contracts.append(c)
                     overrides[c.target] = src
                     n_set += 1
@@ -138,7 +183,8 @@ def main():
                 for c in contracts:
                     eng = epy.Engine(SRC)
                     eng.ghost_classes = set()
-                    driver.verify_contracts(run, eng, [c], text_overrides={c.target: overrides[c.target]})
+                    driver.verify_contracts(run, eng, [c], text_overrides={c.target: overrides[c.target]},
+                                            witness={c.qualname + f"[{c.label}]": (lambda c=c: native_setter_witness(overrides[c.target], c.meta)), c.qualname: (lambda c=c: native_setter_witness(overrides[c.target], c.meta))})
                 # embedded model
                 blob = None
                 for n in cls.body:
